@@ -32,6 +32,128 @@ func runC01(p *core.Prog, r *core.Report) {
 	c01R7(p, r)
 	c01R9(p, r)
 	c01R10(p, r)
+	c01R11(p, r)
+}
+
+// c01R11: the error a blob read ended with reaches whoever asked for the blob. A deferred clean-up
+// that assigns the function's error result without looking at what is already there replaces the
+// digest or size mismatch by the result of the clean-up (usually nil).
+func c01R11(p *core.Prog, r *core.Report) {
+	const rule = "C01.R11"
+	r.Rule(rule, "a deferred clean-up keeps the error of the body: in every function of the module that defers a closure, a store into the function's named error result inside that closure is guarded by a test that the result is still nil, or stores a value built from the result (errors.Join, %w)", 1)
+	n, held := 0, 0
+	for _, fn := range p.ModFuncs {
+		if len(fn.Blocks) == 0 || fn.Signature.Results().Len() == 0 {
+			continue
+		}
+		// the cells of the results: what the returns load
+		cells := map[*ssa.Alloc]bool{}
+		for _, ret := range core.Returns(fn) {
+			for _, v := range ret.Results {
+				if u, ok := v.(*ssa.UnOp); ok && u.Op == token.MUL && isErr(v.Type()) {
+					if al, ok := u.X.(*ssa.Alloc); ok {
+						cells[al] = true
+					}
+				}
+			}
+		}
+		if len(cells) == 0 {
+			continue
+		}
+		lab := labeler{}
+		for _, b := range fn.Blocks {
+			for _, in := range b.Instrs {
+				d, ok := in.(*ssa.Defer)
+				if !ok {
+					continue
+				}
+				mc, ok := d.Call.Value.(*ssa.MakeClosure)
+				if !ok {
+					continue
+				}
+				lit, _ := mc.Fn.(*ssa.Function)
+				if lit == nil {
+					continue
+				}
+				for i, bnd := range mc.Bindings {
+					cell, ok := bnd.(*ssa.Alloc)
+					if !ok || !cells[cell] || i >= len(lit.FreeVars) {
+						continue
+					}
+					fv := lit.FreeVars[i]
+					isLoad := func(v ssa.Value) bool {
+						u, ok := v.(*ssa.UnOp)
+						return ok && u.Op == token.MUL && u.X == ssa.Value(fv)
+					}
+					for _, lb := range lit.Blocks {
+						for _, lin := range lb.Instrs {
+							st, ok := lin.(*ssa.Store)
+							if !ok || st.Addr != ssa.Value(fv) {
+								continue
+							}
+							n++
+							okStore := false
+							// guarded by `err == nil`
+							for _, g := range core.Guards(lb) {
+								cnd, pol := core.StripNot(g.Cond, g.Polarity)
+								if x, neq, isNil := errCmpNil(cnd); isNil && isLoad(x) && neq != pol {
+									okStore = true
+								}
+								// after a panic the body returned nothing: the recover branch may set the error
+								if bo, ok := cnd.(*ssa.BinOp); ok {
+									for _, side := range []ssa.Value{bo.X, bo.Y} {
+										if rc, ok := side.(*ssa.Call); ok {
+											if bi, ok := rc.Call.Value.(*ssa.Builtin); ok && bi.Name() == "recover" {
+												okStore = true
+											}
+										}
+									}
+								}
+							}
+							// or built from the old value
+							var uses func(v ssa.Value, dd int) bool
+							uses = func(v ssa.Value, dd int) bool {
+								if v == nil || dd > 6 {
+									return false
+								}
+								if isLoad(v) {
+									return true
+								}
+								switch x := v.(type) {
+								case *ssa.Call:
+									for _, a := range x.Call.Args {
+										for _, e := range variadicElems(a) {
+											if uses(underIface(e), dd+1) {
+												return true
+											}
+										}
+									}
+								case *ssa.Phi:
+									for _, e := range x.Edges {
+										if uses(e, dd+1) {
+											return true
+										}
+									}
+								case *ssa.MakeInterface:
+									return uses(x.X, dd+1)
+								}
+								return false
+							}
+							if uses(st.Val, 0) {
+								okStore = true
+							}
+							if okStore {
+								held++
+								continue
+							}
+							r.Violated(rule, p.FuncName(fn), lab.next("deferred store to the error result"), p.Pos(st.Pos()), "the deferred closure assigns the error result whatever it holds: an error the body returned (a digest or size mismatch reported at the end of a blob) is replaced by the result of the clean-up")
+						}
+					}
+				}
+			}
+		}
+	}
+	r.Check(true, rule, "module", "deferred stores to error results", "-", fmt.Sprintf("%d deferred store(s) to a named error result, %d keep the body's error", n, held))
 }
 
 // c01R9: the comparisons happen in the Read that sees EOF. A consumer that stops after a byte count
